@@ -110,18 +110,33 @@ def ident(i):
     return i
 
 
+class Thing(object):
+    """a state/node object hashed and compared by identity (a user-defined class without __eq__)"""
+    __slots__ = ('tag',)
+
+    def __init__(self, tag):
+        self.tag = tag
+
+    def __repr__(self):
+        return 'Thing(%s)' % self.tag
+
+
+_THINGS = [Thing(i) for i in range(64)]
+
 NAMINGS = {
     'int': lambda i: i,
     'str': lambda i: 's%d' % i,
     'tuple': lambda i: (i, 'x'),
     'mixed': lambda i: [0, 'one', (2, 2), frozenset([3]), 4.5, 'five', (6,), 7, 'eight', (9, 9), 10, '11', 12][i % 13] if i < 13 else i,
     'neg': lambda i: -i - 1,
+    'obj': lambda i: _THINGS[i],                        # identity-compared objects
+    'objmix': lambda i: _THINGS[i] if i % 2 else (i, _THINGS[i]),   # tuples with identity-compared components
     # falsy and None node objects (legal hashables; only used for plain digraphs: Kripke.labels(None) means "all labels")
     'falsy': lambda i: [None, 0, '', (), frozenset(), 'x', (0,), -1, 'None', 2.5, (None,), 'y', 7][i] if i < 13 else i,
 }
 
 
-def mk_kripke(K, naming='int', order=None, rng=None, S0=None):
+def mk_kripke(K, naming='int', order=None, rng=None, S0=None, relabel=False):
     """Present abstract K = {n,R,L} to the real constructor.  Returns (kripke, name_of, index_of)."""
     name = NAMINGS[naming] if isinstance(naming, str) else naming
     n = K['n']
@@ -132,7 +147,16 @@ def mk_kripke(K, naming='int', order=None, rng=None, S0=None):
         rng.shuffle(S)
         rng.shuffle(R)
         rng.shuffle(L)
-    k = Kripke(S=S, S0=[name(i) for i in (S0 or [])], R=R, L=dict(L))
+    if relabel:
+        # two-step construction: bare structure first, then replace_labelling_function with a dict that is also
+        # defined on objects that are NOT states (e.g. one labelling shared by several structures)
+        k = Kripke(S=S, S0=[name(i) for i in (S0 or [])], R=R)
+        Ld = dict(L)
+        for j in range(n, n + 2):
+            Ld[name(j)] = set(['p', 'q'])
+        k.replace_labelling_function(Ld)
+    else:
+        k = Kripke(S=S, S0=[name(i) for i in (S0 or [])], R=R, L=dict(L))
     return k, name, {name(i): i for i in range(n)}
 
 
